@@ -4,6 +4,7 @@ package verifk8s
 
 import (
 	"context"
+	"encoding/json"
 	"errors"
 	"fmt"
 	"strings"
@@ -94,6 +95,9 @@ type Client struct {
 	Outcome func(c *Call) error                                               // outcome of a write; nil = success
 	OnList  func(list client.ObjectList, opts *client.ListOptions) error      // answers List
 	Apply   bool                                                              // apply successful writes to Objs (simple store semantics)
+	// SpecWriteBumpsGeneration: like the API server, a successful non-dry-run Update or Patch touching spec increments
+	// metadata.generation, and the client writes the response back into the object that was passed in.
+	SpecWriteBumpsGeneration bool
 	scheme  *runtime.Scheme
 }
 
@@ -175,8 +179,21 @@ func (c *Client) Patch(_ context.Context, obj client.Object, patch client.Patch,
 	if err != nil {
 		return err
 	}
-	return c.record(Call{Verb: "patch", Key: KeyOf(obj), Obj: ToMap(obj), PatchType: patch.Type(), Data: data,
+	err = c.record(Call{Verb: "patch", Key: KeyOf(obj), Obj: ToMap(obj), PatchType: patch.Type(), Data: data,
 		DryRun: len(po.DryRun) > 0, Force: po.Force != nil && *po.Force, FieldMgr: po.FieldManager})
+	if err == nil && c.SpecWriteBumpsGeneration && len(po.DryRun) == 0 && patchTouchesSpec(data) {
+		obj.SetGeneration(obj.GetGeneration() + 1)
+	}
+	return err
+}
+
+func patchTouchesSpec(data []byte) bool {
+	var body map[string]interface{}
+	if err := json.Unmarshal(data, &body); err != nil {
+		return true
+	}
+	_, has := body["spec"]
+	return has
 }
 
 func (c *Client) Delete(_ context.Context, obj client.Object, opts ...client.DeleteOption) error {
